@@ -613,6 +613,23 @@ func multiRuneCase(rd *rand.Rand, id int) *conCase {
 func randomCases(ctx *core.Ctx) []*conCase {
 	rd := ctx.Rand("random-maps")
 	var out []*conCase
+	defer func() {
+		// half of the CMap cases: clone + SetMapping on the clone before every query;
+		// chains: parents named like predefined CMaps
+		n := 0
+		for _, c := range out {
+			if c.Kind == "cid" || c.Kind == "rect-cid" {
+				n++
+				if n%2 == 0 {
+					c.CloneStep = true
+				}
+				if len(c.Layers) > 1 && n%3 != 0 {
+					c.ParentName = []string{"Identity-H", "UniGB-UCS2-H", "90ms-RKSJ-H"}[n%3]
+					c.Origin += "/parent=" + c.ParentName
+				}
+			}
+		}
+	}()
 	for i := 0; i < ctx.Pick(6, 30); i++ {
 		out = append(out, multiRuneCase(rd, i))
 	}
